@@ -1170,6 +1170,29 @@ func ruleC10TypeWalks(c *Ctx) {
 								if lk, ok := v.(*ssa.Lookup); ok && lk.Index == ssa.Value(phi) {
 									checked = true
 								}
+								// the test-and-mark can live in a helper that is handed the type and whose result decides the exit
+								if hc, ok := v.(*ssa.Call); ok {
+									if h := hc.Call.StaticCallee(); h != nil && c.P.InPkg(h) {
+										for pi, a := range hc.Call.Args {
+											if a != ssa.Value(phi) || pi >= len(h.Params) {
+												continue
+											}
+											ps := typeSubjectSet(h, h.Params[pi])
+											core.EachInstr(h, func(j ssa.Instruction) {
+												switch y := j.(type) {
+												case *ssa.Lookup:
+													if ps[y.Index] {
+														checked = true
+													}
+												case *ssa.MapUpdate:
+													if ps[y.Key] {
+														recorded = true
+													}
+												}
+											})
+										}
+									}
+								}
 								if bo, ok := v.(*ssa.BinOp); ok {
 									if p2, ok := bo.X.(*ssa.Phi); ok && p2.Block() == header && isIntType(p2.Type()) {
 										counted = true
